@@ -278,8 +278,11 @@ def loops_rule(prog, rep):
     calls = [c for c in walk_with_nested_exprs(fi.node) if isinstance(c, ast.Call) and prog.is_registry_value(c.func, fi) and "self.name" in norm(c.func if not isinstance(c.func, ast.Name) else single_def(fi, c.func.id))]
     ok = False
     md = None
-    if len(calls) == 1 and len(calls[0].args) == 1 and isinstance(calls[0].args[0], ast.Starred) and not calls[0].keywords:
-        md = map_desc(fi, calls[0].args[0].value)
+    if len(calls) == 1 and calls[0].args and isinstance(calls[0].args[-1], ast.Starred) and not any(isinstance(a_, ast.Starred) for a_ in calls[0].args[:-1]) and not calls[0].keywords:
+        # f(*[ds, ns, v1, ...])  or  f(ds, ns, *[v1, ...]): the leading plain arguments are the front of the argument list
+        md = map_desc(fi, calls[0].args[-1].value)
+        if md is not None:
+            md = ([norm(a_) for a_ in calls[0].args[:-1]] + list(md[0]),) + tuple(md[1:])
         ok = md == (["datastore", "namespace"], "self.args", "_.interpret(datastore, namespace)", None)
     rep.check(ok, "LOOPS", fi.short, "argument evaluation", "all of self.args, in order, after (datastore, namespace)", f"a call does not apply the built-in to the values of all of its arguments in written order (argument list: {md})", fi.loc())
     fi = prog.func("QList.interpret")
@@ -769,6 +772,21 @@ def text_level_rules(prog, rep):
             if written:
                 n += 1
                 rep.violation("TEXT", fi.short, f"global {', '.join(written)}", f"{fi.short} keeps state in the module-level variable(s) {written}: what one query (or one failed parse: an exception between the update and its undo leaves it changed) does shows in all later queries of the process", fi.loc(g_))
+    # (d) rewriting program text
+    REWR = ("sub", "subn", "replace", "translate", "lower", "upper", "casefold", "swapcase", "title", "capitalize", "expandtabs")
+    for fi in prog.funcs.values():
+        if fi.mod.name != "aw_query.query2" or (fi.cls is not None and fi.cls.name == "QString"):
+            continue
+        for c in [x for x in walk_with_nested_exprs(fi.node) if isinstance(x, ast.Call)]:
+            f = c.func
+            hit = isinstance(f, ast.Attribute) and f.attr in REWR and (c.args or f.attr not in ("replace",)) and not (f.attr == "replace" and not c.args)
+            hit = hit or norm(f) in ("re.sub", "re.subn", "re.split")
+            # un-escaping a scanned string token (`tok.replace("\\" + q, q)`) is the string scanner's own work, wherever a helper put it
+            if hit and isinstance(f, ast.Attribute) and f.attr == "replace" and c.args and ((isinstance(c.args[0], ast.BinOp) and isinstance(c.args[0].left, ast.Constant) and c.args[0].left.value == "\\") or (isinstance(c.args[0], ast.Constant) and isinstance(c.args[0].value, str) and c.args[0].value.startswith("\\"))):
+                hit = False
+            if hit:
+                n += 1
+                rep.violation("TEXT", fi.short, f"`{norm(c)[:50]}`", f"{fi.short} rewrites program text with `{norm(c)[:70]}`: outside the string scanner nothing knows where string literals are, so the same rewriting is applied inside them (a `#`, a doubled space, an upper-case letter inside a quoted string is changed or cut) and the program no longer evaluates to the value its text denotes", fi.loc(c))
     rep.extra["text_level_sites"] = n
     if not n:
         rep.ok("TEXT", "aw_query / aw_transform", "text-level decisions", "no character-count rejection, no comma splitter, no global state", None)
@@ -828,6 +846,7 @@ def arity_rule(prog, rep):
 
 
 VARIANTS = [
+    ("B comments stripped with a regular expression before splitting", Q2, "    query_stmts = query.split(\";\")\n", "    import re\n    query = re.sub(r\"#[^\\n]*\", \"\", query)\n    query_stmts = query.split(\";\")\n", "TEXT"),
     ("B statements rejected when bracket counts of the raw text differ", Q2, "def parse(line, namespace):\n", "def parse(line, namespace):\n    if line.count(\"(\") != line.count(\")\"):\n        raise QueryParseException(\"Unbalanced brackets\")\n", "TEXT"),
     ("B nesting depth kept in a module-level counter", Q2, "def parse(line, namespace):\n", "_depth = 0\n\n\ndef parse(line, namespace):\n    global _depth\n    _depth += 1\n", "TEXT"),
     ("B dict body taken with strip('{}') (eats the braces of a trailing nested dict)", Q2, "        entries_str = string[1:-1]\n        d: Dict[str, QToken] = {}", "        entries_str = string.strip(\"{}\")\n        d: Dict[str, QToken] = {}", "LOOPS"),
